@@ -42,6 +42,39 @@ def struct(n):
     return (cls,)
 
 
+def py_struct(text):
+    """structure of the same text under Python's expression grammar (None when it has calls or is not an expression)"""
+    import ast as pyast
+    try:
+        t = pyast.parse(text.strip(), mode="eval").body
+    except SyntaxError:
+        return None
+    ops = {pyast.Add: "+", pyast.Sub: "-", pyast.Mult: "*", pyast.Div: "/"}
+
+    def conv(n):
+        if isinstance(n, pyast.BinOp) and type(n.op) in ops:
+            return ("bin", ops[type(n.op)], conv(n.left), conv(n.right))
+        if isinstance(n, pyast.UnaryOp) and isinstance(n.op, (pyast.UAdd, pyast.USub)):
+            return ("un", "+" if isinstance(n.op, pyast.UAdd) else "-", conv(n.operand))
+        if isinstance(n, pyast.Name):
+            return ("id", n.id, None)
+        if isinstance(n, pyast.Constant) and isinstance(n.value, int) and not isinstance(n.value, bool):
+            return ("const", str(n.value))
+        raise ValueError
+    try:
+        return conv(t)
+    except ValueError:
+        return None
+
+
+def show(t):
+    if t[0] == "bin":
+        return "(%s %s %s)" % (show(t[2]), t[1], show(t[3]))
+    if t[0] == "un":
+        return "(%s%s)" % (t[1], show(t[2]))
+    return str(t[1])
+
+
 def strip_attrs(text):
     import re
     return re.sub(r'\s*\+\w+(\([^()]*\)|=\w+)?', '', text)
@@ -208,6 +241,11 @@ def check(inp):
         src = e.replace(" ", "")
         if p1.replace("(", "").replace(")", "") != src.replace("(", "").replace(")", ""):
             return "tokens lost, added or reordered: %r printed as %r" % (e, p1)
+        # the tree is the one the C++ grammar gives: for + - * / and unary signs over names, literals and parentheses the
+        # grouping rules of C++ and of Python's own grammar coincide (precedence, left associativity, sign binds tighter)
+        want = py_struct(e)
+        if want is not None and struct(n1) != want:
+            return "the expression %r is grouped as %s, the C++ grammar groups it as %s" % (e, show(struct(n1)), show(want))
         if struct(n1) != struct(n2):
             return "printing changes the structure of the expression (parentheses it needs are dropped or operands regrouped): %r printed as %r" % (e, p1)
         return None
@@ -337,6 +375,9 @@ def candidates(seed, around=None):
         yield {"text": "%s a[3][4]" % s}
         yield {"text": "void f(%s field[4][5])" % s}
         yield {"text": "std::vector<%s> %sv" % (s.replace("const ", ""), p)}
+    for a, b, c in itertools.product(["+", "-", "*", "/"], repeat=3):
+        yield {"kind": "expr", "text": "a %s -b %s c %s +d" % (a, b, c)}
+        yield {"kind": "expr", "text": "6 %s - 2 %s 3 %s 4" % (a, b, c)}
     exprs = ["1", "a", "a+b", "a+b*c", "(a+b)*c", "a-b-c", "a/b/c", "a-(b-c)", "-a", "- -a", "1 - -1", "a*-b", "f(a)", "f(a,b)", "f(a,)",
              "size(a)+1", "2*(3+4)", "a+(b)", "((a))", "+a", "f()", "a*b+c*d", "a/(b*c)"]
     for e in exprs:
